@@ -118,7 +118,17 @@ def run_pairs(ctx, pairs, nmodel):
         fmax = float(fr["df"][1]) * float(fr["freq"][-1])
         c1.cutoff = f32(fmax * c1.cut_frac)
     r1 = dc.run_impl(ctx, "".join(c1.impl_text("csr") for _, c1 in pairs))
-    ctx.log("implementation ran %d csr cases" % (2 * len(pairs)))
+    # third stream: a NEGATIVE cutoff frequency.  The code applies the cutoff factor iff cutoff_frequency > 0
+    # (ElectricField::updateCSR), i.e. zero and negative values mean "disabled"; the model takes g = None for them.
+    import copy
+    negs = []
+    for c0, c1 in pairs:
+        c2 = copy.copy(c0)
+        c2.cid = c0.cid + "n"
+        c2.cutoff = -abs(c1.cutoff) if c1.cutoff else -1.0
+        negs.append(c2)
+    r2 = dc.run_impl(ctx, "".join(c2.impl_text("csr") for c2 in negs))
+    ctx.log("implementation ran %d csr cases" % (3 * len(pairs)))
     mp = pairs[:nmodel]
     texts, gs = [], {}
     for c0, c1 in mp:
@@ -138,6 +148,15 @@ def run_pairs(ctx, pairs, nmodel):
             ctx.evaluations += 1
     for c0, c1 in pairs:
         oracle_csr(ctx, c0, c1, r0[c0.cid], r1[c1.cid])
+    for (c0, c1), c2 in zip(pairs, negs):
+        a, b = r0[c0.cid], r2[c2.cid]
+        if a["spectrum"] != b["spectrum"] or a["power"] != b["power"]:
+            dis.append(dict(case=c2.replay("csr"), detail=[dict(what="a negative cutoff frequency changes the spectrum (the model applies the cutoff factor iff f_c > 0)",
+                                                               power_neg=float(b["power"][0]), power_off=float(a["power"][0]))],
+                            sig=dict(kind="csr", stage="correspondence", what="negative-cutoff")))
+            # search: the property's Parseval clause with the cutoff disabled, evaluated on the negative-cutoff result
+            oracle_csr(ctx, c2, c1, b, r1[c1.cid])
+        ctx.case_done(("csr-neg", c2.cid), any(v != 0 for v in c0.prof[0]))
     return dis
 
 
